@@ -515,3 +515,241 @@ theorem segfacet_not_scale_invariant :
   ⟨1 / 10000000, Kern.witS0, Kern.witS1, Kern.witT, by norm_num, Kern.wit_segFacet, Kern.wit_segFacet_small⟩
 
 end MagpyVerif.C16
+
+/-! ### added by the audit: (A) rewinding invariance of the open-edge report for faces INSIDE a list (the header promised it,
+`face_edges_flip_rotate` is about a one-face list); (C) an independent reading of the edge count (number of faces containing
+both end points) — `open_iff_edge_count_ne_2` itself unfolds the model; (E) invariance under vertex renumbering; (B) termination of
+the orientation loop WITHOUT the orientability hypothesis; (D) non-vacuity examples -/
+
+namespace MagpyVerif.C16
+open MagpyVerif.Mesh
+
+/-- splitting off the first face -/
+theorem edgesOf_cons_perm (f : Face) (fs : List Face) : (edgesOf (f :: fs)).Perm (edgesOf [f] ++ edgesOf fs) := by
+  apply List.perm_iff_count.mpr
+  intro e
+  simp only [edgesOf, List.map_cons, List.map_nil, List.count_append, List.count_cons, List.count_nil]
+  omega
+
+theorem edgesOf_winding {f g : Face} (h : g ∈ windings f) : (edgesOf [g]).Perm (edgesOf [f]) := by
+  obtain ⟨a, b, c⟩ := f
+  simp only [windings, List.mem_cons, List.not_mem_nil, or_false] at h
+  apply List.perm_iff_count.mpr
+  intro e
+  rcases h with rfl | rfl | rfl | rfl | rfl | rfl <;>
+    simp only [edgesOf, List.map_cons, List.map_nil, List.count_append, List.count_cons, List.count_nil,
+      sortPair_comm c b, sortPair_comm c a, sortPair_comm b a] <;> omega
+
+theorem edgesOf_rewind_perm {f1 f2 : List Face} (hw : List.Forall₂ (fun f g => g ∈ windings f) f1 f2) :
+    (edgesOf f2).Perm (edgesOf f1) := by
+  induction hw with
+  | nil => exact List.Perm.refl _
+  | cons h _ ih =>
+    exact (edgesOf_cons_perm _ _).trans (((edgesOf_winding h).append ih).trans (edgesOf_cons_perm _ _).symm)
+
+/-- the open-edge report is the same set after any reordering of the faces combined with rotating / flipping the
+winding of any of the faces -/
+theorem open_invariant_under_rewinding {f1 f2 f3 : List Face} (hp : f1.Perm f2)
+    (hw : List.Forall₂ (fun f g => g ∈ windings f) f2 f3) (e : Edge) :
+    e ∈ openEdges f1 ↔ e ∈ openEdges f3 := by
+  rw [open_invariant_under_face_permutation hp, open_iff_edge_count_ne_2, open_iff_edge_count_ne_2]
+  have h := edgesOf_rewind_perm hw
+  rw [h.mem_iff, h.count_eq]
+
+example : (2, 3) ∈ openEdges [(3, 1, 2), (1, 0, 2)] ↔ (2, 3) ∈ openEdges [(0, 1, 2), (1, 2, 3)] :=
+  open_invariant_under_rewinding (List.Perm.swap _ _ []) (.cons (by decide) (.cons (by decide) .nil)) _
+
+end MagpyVerif.C16
+
+namespace MagpyVerif.C16
+open MagpyVerif.Mesh
+
+/-- a face with three distinct indices contributes 1 to the count of the undirected edge {a, b} (a < b) iff it contains both -/
+theorem count_edge_single (x y z a b : Nat) (hxy : x ≠ y) (hyz : y ≠ z) (hxz : x ≠ z) (hab : a < b) :
+    (edgesOf [(x, y, z)]).count (a, b) = if a ∈ verts (x, y, z) ∧ b ∈ verts (x, y, z) then 1 else 0 := by
+  simp only [edgesOf, List.map_cons, List.map_nil, List.cons_append, List.nil_append, verts,
+    List.count_cons, List.count_nil, List.mem_cons, List.not_mem_nil, or_false, beq_iff_eq, sortPair]
+  by_cases h1 : x ≤ y <;> by_cases h2 : y ≤ z <;> by_cases h3 : x ≤ z <;>
+    simp only [h1, h2, h3, if_true, if_false, Prod.mk.injEq] <;> split_ifs <;> omega
+
+/-- independent reading of the count used by `get_open_edges`: on faces with three distinct indices, the number of
+occurrences of `(a, b)`, `a < b`, in the sorted edge list is the number of faces that contain both `a` and `b` -/
+theorem edge_count_eq_faces_containing (faces : List Face)
+    (hnd : ∀ f ∈ faces, f.1 ≠ f.2.1 ∧ f.2.1 ≠ f.2.2 ∧ f.1 ≠ f.2.2) (a b : Nat) (hab : a < b) :
+    (edgesOf faces).count (a, b) = (faces.filter fun f => decide (a ∈ verts f ∧ b ∈ verts f)).length := by
+  induction faces with
+  | nil => simp [edgesOf]
+  | cons f fs ih =>
+    obtain ⟨x, y, z⟩ := f
+    have h1 := hnd (x, y, z) List.mem_cons_self
+    rw [(edgesOf_cons_perm _ fs).count_eq, List.count_append, ih (fun g hg => hnd g (List.mem_cons_of_mem _ hg)),
+      count_edge_single x y z a b h1.1 h1.2.1 h1.2.2 hab, List.filter_cons]
+    by_cases hc : a ∈ verts (x, y, z) ∧ b ∈ verts (x, y, z)
+    · simp only [hc, and_self, if_true, decide_true, List.length_cons]; omega
+    · simp only [hc, if_false, decide_false]; simp
+
+/-- closed ⇔ every pair of vertices that lies on a common face lies on exactly two faces (faces with distinct indices) -/
+example : (edgesOf [(0, 1, 2), (0, 1, 3), (0, 2, 3), (1, 2, 3)]).count (1, 3) = 2 := by decide
+end MagpyVerif.C16
+
+namespace MagpyVerif.C16
+open MagpyVerif.Mesh
+
+/-- the renumbered (and re-sorted) edge -/
+def mapEdge (σ : Nat → Nat) (e : Edge) : Edge := sortPair (σ e.1) (σ e.2)
+
+theorem mapEdge_sortPair (σ : Nat → Nat) (a b : Nat) : mapEdge σ (sortPair a b) = sortPair (σ a) (σ b) := by
+  unfold mapEdge
+  by_cases h : a ≤ b
+  · simp [sortPair, h]
+  · simp only [sortPair, h, if_false]; exact sortPair_comm _ _
+
+theorem edgesOf_map (σ : Nat → Nat) (faces : List Face) :
+    edgesOf (faces.map (mapFace σ)) = (edgesOf faces).map (mapEdge σ) := by
+  have key : ∀ (p q : Face → Nat), (∀ f, p (mapFace σ f) = σ (p f)) → (∀ f, q (mapFace σ f) = σ (q f)) →
+      (faces.map (mapFace σ)).map (fun f => sortPair (p f) (q f)) = (faces.map (fun f => sortPair (p f) (q f))).map (mapEdge σ) := by
+    intro p q hp hq
+    rw [List.map_map, List.map_map]
+    apply List.map_congr_left
+    intro f _
+    simp only [Function.comp, hp, hq, mapEdge_sortPair]
+  simp only [edgesOf, List.map_append]
+  rw [key (·.1) (·.2.1) (fun _ => rfl) (fun _ => rfl), key (·.2.1) (·.2.2) (fun _ => rfl) (fun _ => rfl),
+    key (·.1) (·.2.2) (fun _ => rfl) (fun _ => rfl)]
+
+theorem sorted_of_mem_edgesOf {faces : List Face} {e : Edge} (h : e ∈ edgesOf faces) : e.1 ≤ e.2 := by
+  simp only [edgesOf, List.mem_append, List.mem_map] at h
+  have key : ∀ a b : Nat, (sortPair a b).1 ≤ (sortPair a b).2 := by
+    intro a b; unfold sortPair; split <;> simp <;> omega
+  rcases h with (⟨f, _, rfl⟩ | ⟨f, _, rfl⟩) | ⟨f, _, rfl⟩ <;> exact key _ _
+
+theorem mapEdge_inj_sorted {σ : Nat → Nat} (hσ : Function.Injective σ) {e e' : Edge} (h1 : e.1 ≤ e.2) (h2 : e'.1 ≤ e'.2)
+    (h : mapEdge σ e = mapEdge σ e') : e = e' := by
+  obtain ⟨a, b⟩ := e
+  obtain ⟨c, d⟩ := e'
+  simp only [mapEdge, sortPair] at h
+  simp only at h1 h2
+  split_ifs at h <;> simp only [Prod.mk.injEq] at h <;> obtain ⟨p, q⟩ := h <;>
+    have p' := hσ p <;> have q' := hσ q <;> (first | (subst p'; subst q'; rfl) | (simp only [Prod.mk.injEq]; omega))
+
+theorem count_mapEdge {σ : Nat → Nat} (hσ : Function.Injective σ) (faces : List Face) {e : Edge} (he : e.1 ≤ e.2) :
+    ((edgesOf faces).map (mapEdge σ)).count (mapEdge σ e) = (edgesOf faces).count e := by
+  rw [List.count_eq_countP, List.countP_map, List.count_eq_countP]
+  apply List.countP_congr
+  intro x hx
+  simp only [Function.comp, beq_iff_eq]
+  exact ⟨fun h => mapEdge_inj_sorted hσ (sorted_of_mem_edgesOf hx) he h, fun h => by rw [h]⟩
+
+/-- `check_open` does not depend on the numbering of the vertices: an injective renumbering maps the open edges onto the
+open edges (re-sorted), in particular closed meshes stay closed -/
+theorem open_invariant_under_renumbering {σ : Nat → Nat} (hσ : Function.Injective σ) (faces : List Face) (e : Edge)
+    (he : e.1 ≤ e.2) : mapEdge σ e ∈ openEdges (faces.map (mapFace σ)) ↔ e ∈ openEdges faces := by
+  rw [open_iff_edge_count_ne_2, open_iff_edge_count_ne_2, edgesOf_map, count_mapEdge hσ faces he]
+  constructor
+  · rintro ⟨hm, hc⟩
+    obtain ⟨x, hx, hxe⟩ := List.mem_map.mp hm
+    have := mapEdge_inj_sorted hσ (sorted_of_mem_edgesOf hx) he hxe
+    exact ⟨this ▸ hx, hc⟩
+  · rintro ⟨hm, hc⟩
+    exact ⟨List.mem_map_of_mem hm, hc⟩
+
+theorem closed_invariant_under_renumbering {σ : Nat → Nat} (hσ : Function.Injective σ) (faces : List Face) :
+    openEdges (faces.map (mapFace σ)) = [] ↔ openEdges faces = [] := by
+  rw [closed_iff, closed_iff, edgesOf_map]
+  constructor
+  · intro h e he
+    rw [← count_mapEdge hσ faces (sorted_of_mem_edgesOf he)]
+    exact h _ (List.mem_map_of_mem he)
+  · intro h e' he'
+    obtain ⟨e, he, rfl⟩ := List.mem_map.mp he'
+    rw [count_mapEdge hσ faces (sorted_of_mem_edgesOf he)]
+    exact h e he
+
+-- non-vacuity: the open triangle fan renumbered by v ↦ 9 − v (order-reversing) keeps its three open edges
+example : openEdges (([(0, 1, 2), (0, 1, 3), (0, 2, 3)] : List Face).map (mapFace (9 - ·))) = [(7, 8), (6, 8), (6, 7)] := by decide
+end MagpyVerif.C16
+
+namespace MagpyVerif.C16
+open MagpyVerif.Mesh
+
+/-- every pass of the `while indices:` loop lowers `2·len(indices) + [any_connected]` — for ANY face list, no orientability -/
+theorem orientStep_measure_lt (seed : List Nat → Bool) (tris : List Face) (st : OrientSt) (hne : st.indices ≠ []) :
+    Mesh.measure (orientStep seed tris st) < Mesh.measure st := by
+  obtain ⟨i0, rest, hidx⟩ := List.exists_cons_of_ne_nil hne
+  cases hconn : st.anyConnected
+  · have hstep : orientStep seed tris st = OrientSt.mk (setAt st.mask st.indices (seed st.indices)) (st.indices.erase i0)
+        (symmDiff [] (dirEdges (faceAt tris i0))) true := by
+      simp only [orientStep, hconn, Bool.false_eq_true, if_false, hidx, scan, List.isEmpty_nil, if_true, faceAt]
+    rw [hstep]
+    simp only [Mesh.measure, hconn, hidx, List.erase_cons_head, List.length_cons, if_true, Bool.false_eq_true, if_false]
+    omega
+  · cases hscan : scan tris st.free st.indices with
+    | none =>
+      have hstep : orientStep seed tris st = { st with anyConnected := false } := by
+        simp only [orientStep, hconn, if_true, hscan]
+      rw [hstep]
+      simp only [Mesh.measure, hconn, if_true, Bool.false_eq_true, if_false]
+      omega
+    | some r =>
+      obtain ⟨j, flip, free'⟩ := r
+      have hstep : orientStep seed tris st = OrientSt.mk (if flip then toggleAt st.mask j else st.mask) (st.indices.erase j)
+          free' true := by
+        simp only [orientStep, hconn, if_true, hscan]
+      rw [hstep]
+      have hj := (scan_some hscan).1
+      have hl := List.length_erase_of_mem hj
+      have hpos : 0 < st.indices.length := List.length_pos_of_mem hj
+      simp only [Mesh.measure, hconn, if_true, hl]
+      omega
+
+theorem orientLoop_terminates (seed : List Nat → Bool) (tris : List Face) :
+    ∀ (fuel : Nat) (st : OrientSt), measure st ≤ fuel → (orientLoop seed tris fuel st).indices = [] := by
+  intro fuel
+  induction fuel with
+  | zero =>
+    intro st hm
+    simp only [Mesh.measure] at hm
+    simp only [orientLoop]
+    exact List.eq_nil_of_length_eq_zero (by omega)
+  | succ fuel ih =>
+    intro st hm
+    simp only [orientLoop]
+    by_cases hE : st.indices.isEmpty = true
+    · rw [if_pos hE]; exact List.isEmpty_iff.mp hE
+    · rw [if_neg hE]
+      have hne : st.indices ≠ [] := fun h0 => hE (List.isEmpty_iff.mpr h0)
+      have := orientStep_measure_lt seed tris st hne
+      exact ih _ (by omega)
+
+/-- the fuel `2 * len(triangles) + 1` is sufficient for EVERY face list (orientable or not): the loop ends with `indices`
+empty and more fuel gives the same state — the model returns what the unbounded Python loop returns -/
+theorem orientLoop_fuel_sufficient_all (seed : List Nat → Bool) (tris : List Face) (m : Nat) (hm : 2 * tris.length + 1 ≤ m) :
+    (orientLoop seed tris (2 * tris.length + 1) (orientInit tris)).indices = [] ∧
+    orientLoop seed tris m (orientInit tris) = orientLoop seed tris (2 * tris.length + 1) (orientInit tris) := by
+  have h := orientLoop_terminates seed tris (2 * tris.length + 1) (orientInit tris) (by simp [Mesh.measure, orientInit])
+  exact ⟨h, orientLoop_fuel_irrelevant seed tris _ m _ h hm⟩
+
+-- non-vacuity on a non-orientable mesh
+example : (orientLoop (fun _ => false) rp2 (2 * rp2.length + 1) (orientInit rp2)).indices = [] :=
+  (orientLoop_fuel_sufficient_all _ rp2 _ (Nat.le_refl _)).1
+
+end MagpyVerif.C16
+
+namespace MagpyVerif.C16
+open MagpyVerif.Mesh
+
+-- non-vacuity (renumbering): vertices shifted by 5 — two parts stay two parts
+example : (subsets (([(0, 1, 2), (3, 4, 5)] : List Face).map (mapFace (· + 5))).length.succ
+    (([(0, 1, 2), (3, 4, 5)] : List Face).map (mapFace (· + 5)))).length ≠ 1 := by decide
+example : Function.Injective (fun v : Nat => v + 5) := fun a b h => by simpa using h
+example : ¬ (subsets (([(0, 1, 2), (3, 4, 5)] : List Face).map (mapFace (· + 5))).length.succ
+    (([(0, 1, 2), (3, 4, 5)] : List Face).map (mapFace (· + 5)))).length = 1 := by
+  rw [connected_verdict_invariant_under_renumbering (σ := (· + 5)) (fun a b h => by simpa using h)]
+  decide
+
+-- non-vacuity (shared edge): tetrahedron with faces 1 and 3 given flipped; returned face 0 runs 0 → 1, returned face 1 runs 1 → 0
+example : (1, 0) ∈ dirEdges ((fixOrientation (fun _ => false) [(0, 1, 2), (0, 1, 3), (0, 2, 3), (1, 2, 3)]).getD 1 (0, 0, 0)) :=
+  shared_edge_traversed_oppositely (fun _ => false) [(0, 1, 2), (0, 1, 3), (0, 2, 3), (1, 2, 3)]
+    (fun i => [false, true, false, true].getD i false) ((conflict_iff _ _).mp (by decide))
+    0 1 (by decide) (by decide) (by decide) 0 1 (by decide) (Or.inr (by decide))
+end MagpyVerif.C16
